@@ -289,10 +289,10 @@ class Sites:
 
     def analyse_method(self, K, fn, src='self'):
         info = self.infos[K]
-        local = {}
-        for s in fn.body:
+        local = {}        # name -> [every expression assigned to it, in any branch]
+        for s in _walk_stmts(fn.body):
             if isinstance(s, ast.Assign) and len(s.targets) == 1 and isinstance(s.targets[0], ast.Name):
-                local.setdefault(s.targets[0].id, s.value)
+                local.setdefault(s.targets[0].id, []).append(s.value)
         params = {a.arg for a in fn.args.args + fn.args.kwonlyargs} - {'self'}
         # the construction: `return K(...)` or `X = K(...)` / `X = K.__new__(K)` … `return X`
         ctor, resvar = None, None
@@ -399,7 +399,11 @@ class Sites:
             return 'unknown', note
         if isinstance(e, ast.Name):
             if e.id in local and e.id not in params:
-                return self.classify(info, f, local[e.id], src, local, params, depth + 1)
+                # a local assigned in several branches: the worst of its assignments
+                worst = ['unknown', 'plain', 'fresh', 'reset', 'deep']
+                rs = [self.classify(info, f, v, src, local, params, depth + 1) for v in local[e.id]]
+                rs.sort(key=lambda r: worst.index(r[0]))
+                return rs[0]
             if e.id in params or e.id in local:
                 return 'reset', note
             return 'unknown', note
